@@ -54,6 +54,8 @@ type c24Logged struct {
 	Base    string          `json:"base"`
 	Class   string          `json:"class"`
 	Request json.RawMessage `json:"request_protojson"`
+	// OptsUnset: the request carries no options message
+	OptsUnset bool `json:"opts_unset,omitempty"`
 }
 
 type c24Arg struct {
@@ -538,7 +540,7 @@ func c24Child(rec *kit.Rec) {
 	}
 	probeS := c24Req{"Search", "probe", "probe", &v1.SearchRequest{Query: qOf(&v1.Substring{Pattern: "a", Content: true}), Opts: &v1.SearchOptions{}}}
 	probeL := c24Req{"List", "probe", "probe", &v1.ListRequest{Query: qOf(true), Opts: &v1.ListOptions{}}}
-	kit.LogCase(c24Logged{a.Batch, -1, "Search", "probe", "initial-probe", nil})
+	kit.LogCase(c24Logged{a.Batch, -1, "Search", "probe", "initial-probe", nil, false})
 	if code, _, msg := rig.call(probeS); code != codes.OK {
 		rec.Violation("harness/initial-probe", fmt.Sprintf("%v %s", code, msg), nil)
 		return
@@ -546,6 +548,17 @@ func c24Child(rec *kit.Rec) {
 	reqs := c24Requests(rec.Seed, a.Batch, a.Size, c24ValidQueries(rec.Seed, rig.corpus, rig.gen))
 	for i := a.Start; i < len(reqs); i++ {
 		q := reqs[i]
+		if skip[q.Method+"|opts-unset"] && c24OptsUnset(q.Msg) {
+			// unset options are already known to kill this method: they would mask what the
+			// query of this request does, so the request is sent with empty options instead
+			if q.Base == "opts-unset" || q.Base == "valid-query+opts-unset" {
+				rec.Count("requests_skipped_class_already_reported", 1)
+				continue
+			}
+			q.Msg = c24WithEmptyOpts(q.Msg)
+			q.Class = strings.ReplaceAll(q.Class, "opts-unset", "opts-empty(substituted)")
+			rec.Count("requests_sent_with_empty_instead_of_unset_options", 1)
+		}
 		if skip[q.Method+"|"+q.Base] {
 			rec.Count("requests_skipped_class_already_reported", 1)
 			continue
@@ -555,7 +568,7 @@ func c24Child(rec *kit.Rec) {
 			js, _ = json.Marshal(fmt.Sprint(q.Msg))
 		}
 		wire, _ := mustMarshal(q.Msg)
-		kit.LogCase(c24Logged{a.Batch, i, q.Method, q.Base, q.Class, js})
+		kit.LogCase(c24Logged{a.Batch, i, q.Method, q.Base, q.Class, js, c24OptsUnset(q.Msg)})
 		code, n, msg := rig.call(q)
 		rec.Count("requests_"+q.Method, 1)
 		rec.Count("answers_"+code.String(), 1)
@@ -574,13 +587,58 @@ func c24Child(rec *kit.Rec) {
 		if i%8 == 7 {
 			probe = probeL
 		}
-		kit.LogCase(c24Logged{a.Batch, i, q.Method, q.Base, q.Class + " (probe after it)", js})
+		kit.LogCase(c24Logged{a.Batch, i, q.Method, q.Base, q.Class + " (probe after it)", js, c24OptsUnset(q.Msg)})
 		if pc, _, pm := rig.call(probe); pc != codes.OK {
 			rec.Violation("probe-failed/"+q.Base, fmt.Sprintf("after %s request of class %s (answered %v) the well-formed probe request failed: %v %s", q.Method, q.Class, code, pc, pm),
 				map[string]any{"method": q.Method, "class": q.Class, "request_protojson": json.RawMessage(js)})
 		}
 		rec.Count("probes_ok", 1)
 	}
+}
+
+// c24OptsUnset: a request that has a query but no options message.
+func c24OptsUnset(m proto.Message) bool {
+	switch v := m.(type) {
+	case *v1.SearchRequest:
+		return v.GetOpts() == nil
+	case *v1.StreamSearchRequest:
+		return v.GetRequest().GetOpts() == nil
+	case *v1.ListRequest:
+		return v.GetOpts() == nil
+	}
+	return false
+}
+
+func c24WithEmptyOpts(m proto.Message) proto.Message {
+	m = proto.Clone(m)
+	switch v := m.(type) {
+	case *v1.SearchRequest:
+		v.Opts = &v1.SearchOptions{}
+	case *v1.StreamSearchRequest:
+		if v.Request == nil {
+			v.Request = &v1.SearchRequest{}
+		}
+		v.Request.Opts = &v1.SearchOptions{}
+	case *v1.ListRequest:
+		v.Opts = &v1.ListOptions{}
+	}
+	return m
+}
+
+// c24Cause names what about the request made the server die, from where it died: the
+// handlers convert the query first (query.QFromProto) and the options afterwards, so a
+// death outside QFromProto on a request without options is the missing options, whatever
+// the query was. The cause, not the query class, goes into the signature.
+func c24Cause(site, crash string, lc c24Logged) string {
+	switch {
+	case strings.HasSuffix(site, "QFromProto") && strings.Contains(crash, "unknown query node"):
+		return "query-oneof-unset"
+	case strings.HasSuffix(site, "QFromProto") && strings.Contains(crash, "nil pointer"):
+		return "query-node-nil"
+	case !strings.HasSuffix(site, "QFromProto") && lc.OptsUnset:
+		return "opts-unset"
+	}
+	return lc.Base
 }
 
 // ---------------------------------------------------------------------------
@@ -622,14 +680,23 @@ func c24Totality(rec *kit.Rec) {
 			deaths++
 			site := c24CrashSite(res)
 			class := lc.Class
-			rec.Violation("server-crash/"+site+"/"+lc.Base,
+			cause := c24Cause(site, res.CrashClass(), lc)
+			rec.Count("server_deaths_"+lc.Method+"_"+cause, 1)
+			rec.Seen("request_classes_that_killed_the_server", lc.Method+" "+lc.Base+" -> "+cause+" @ "+site)
+			rec.Violation("server-crash/"+site+"/"+cause,
 				fmt.Sprintf("the gRPC server process died while handling a well-formed %s request (class %s): %s", lc.Method, class, res.CrashClass()),
 				map[string]any{"method": lc.Method, "class": class, "request_protojson": lc.Request, "batch": lc.Batch, "index": lc.I,
 					"child_exit": res.Exit, "child_signal": res.Signal, "child_output": clip(res.Tail, 5000),
 					"replay": "send request_protojson (protojson of the request message) to " + lc.Method + " of a server built with grpc/defaults.NewServer + grpcserver.NewServer(search.NewDirectorySearcher(dir))"})
-			perBase[lc.Method+"|"+lc.Base]++
-			if !strings.HasPrefix(lc.Base, "valid-query") || perBase[lc.Method+"|"+lc.Base] >= 5 {
-				skip[lc.Method+"|"+lc.Base] = true
+			if cause == "opts-unset" {
+				// not this query class's doing: from now on this method gets empty options
+				// where the generator left them unset, so that the class is still observed
+				skip[lc.Method+"|opts-unset"] = true
+			} else {
+				perBase[lc.Method+"|"+lc.Base]++
+				if !strings.HasPrefix(lc.Base, "valid-query") || perBase[lc.Method+"|"+lc.Base] >= 5 {
+					skip[lc.Method+"|"+lc.Base] = true
+				}
 			}
 			start = lc.I + 1
 			if deaths >= maxDeaths {
